@@ -466,7 +466,8 @@ def build5(w):
         ensures=clauses(True),
         # rejected only when no live savepoint carries the name (checked at the raise: the whole old stack has been looked at)
         raises={'TransactionError': {'only_if': ACT('ROLLBACK_TO_SAVEPOINT'), 'ensures': ['implies(0 <= K and K < len(%s), %s[K][0] != query_unit.sp_name)' % (OLD, OLD)]},
-                'AssertionError': {'only_if': ACT('DECLARE_SAVEPOINT')}},
+                # SAVEPOINT is refused (by assertion) only when there is no name or no transaction settings to snapshot
+                'AssertionError': {'only_if': ACT('DECLARE_SAVEPOINT') + ' and (query_unit.sp_name is None or self.in_tx_settings is None or self.in_tx_local_settings is None)'}},
         loops={0: dict(fingerprint='while self.savepoints', invariant=INV)},
         abstract={'if query_unit.frontend_only and query_unit.set_vars:': dict(assigns={}, modifies=['SQLTS.settings', 'SQLTS.in_tx_settings', 'SQLTS.in_tx_local_settings'],
                       ensures=['implies(not query_unit.frontend_only, self.settings == old(self.settings) and self.in_tx_settings == old(self.in_tx_settings) '
@@ -480,7 +481,8 @@ def build5(w):
         ensures=clauses(False),
         # rejected only when no live savepoint carries the name (checked at the raise: the whole old stack has been looked at)
         raises={'TransactionError': {'only_if': ACT('ROLLBACK_TO_SAVEPOINT'), 'ensures': ['implies(0 <= K and K < len(%s), %s[K][0] != query_unit.sp_name)' % (OLD, OLD)]},
-                'AssertionError': {'only_if': ACT('DECLARE_SAVEPOINT')}},
+                # SAVEPOINT is refused (by assertion) only when there is no name or no transaction settings to snapshot
+                'AssertionError': {'only_if': ACT('DECLARE_SAVEPOINT') + ' and (query_unit.sp_name is None or self.in_tx_settings is None or self.in_tx_local_settings is None)'}},
         loops={0: dict(fingerprint='while self.savepoints', invariant=INV_G)},
         abstract={'if query_unit.frontend_only and query_unit.set_vars:': dict(assigns={}, modifies=['SQLTS.settings', 'SQLTS.in_tx_settings', 'SQLTS.in_tx_local_settings'],
                       ensures=['implies(not query_unit.frontend_only, self.settings == old(self.settings) and self.in_tx_settings == old(self.in_tx_settings) '
